@@ -1,4 +1,5 @@
 import PkLA.Rff
+import PkLA.RffGaussian
 import Pk.Streams
 import Pk.KindLaws
 import Mathlib.Algebra.BigOperators.Group.Finset.Basic
@@ -9,8 +10,10 @@ Proved: the exact identities of the two feature-generation methods (`weight_only
 feature vectors is the average of `cos(⟨x−y, w_j⟩)` and every feature vector has unit norm; `weight_offset`:
 averaging over a uniform offset removes it), the layout of `KernelApproxLiftingFn`, and the stream model of the
 seed plumbing (integer seeds make weights and offsets read the same stream positions — finding F-rff).
+Also proved (Mathlib's Gaussian characteristic function): for independent standard normal weights the mean of one
+feature product is exactly the Gaussian kernel `exp(−shape·‖x−y‖²)` (`C17_gaussian_kernel_mean`).
 NOT provable here: that scipy's samplers have the named distributions, the Fourier pairs of the Laplacian /
-Cauchy kernels, the Gaussian characteristic function, and the `O(1/√D)` concentration.  Property theorems only. -/
+Cauchy kernels, and the `O(1/√D)` concentration.  Property theorems only. -/
 namespace Pk.C17
 open Real Finset PkLA
 
@@ -74,5 +77,14 @@ theorem C17_lifting_layout {α : Type} (ops : Ops α) (ok : α → Prop) (id n :
     have : r.u = [] := List.eq_nil_of_length_eq_zero h0
     simp [this]
   · simp
+
+/-- **the `'gaussian'` features are unbiased for the Gaussian kernel**: for i.i.d. standard normal weights `w_i`
+(what `scipy.stats.norm.rvs` is assumed to deliver) the mean of `cos(√(2·shape)·Σ_i w_i (x_i − y_i))` - which by
+`C17_weight_only_exact` / `C17_offset_average` is the mean of the feature inner product - is `exp(−shape·‖x − y‖²)` -/
+theorem C17_gaussian_kernel_mean {ι : Type} [Fintype ι] (shape : ℝ) (hs : 0 ≤ shape) (x y : ι → ℝ) :
+    ∫ w : ι → ℝ, Real.cos (Real.sqrt (2 * shape) * ∑ i, w i * (x i - y i))
+        ∂(MeasureTheory.Measure.pi fun _ : ι => ProbabilityTheory.gaussianReal 0 1)
+      = Real.exp (-(shape * ∑ i, (x i - y i) ^ 2)) :=
+  rff_gaussian_mean_iid shape hs (fun i => x i - y i)
 
 end Pk.C17
